@@ -653,5 +653,8 @@ def solve_all(res: UnitResult, budget_s=30.0, both=False, par=4):
     from .solve import solve_many
 
     solve_many(res.vcs, budget_s=budget_s, both=both, par=par)
+    from .solve import sliced_retry
+
+    sliced_retry(res.vcs)
     res.secs_solve = time.time() - t0
     return res
